@@ -172,7 +172,8 @@ def oracle(case, result):
     # 2. the marker only ever sits on a complete set of part files (every intermediate state and the final one)
     for t, snap in enumerate(hist + [final]):
         if _has_marker(snap) and not (n != 1 and _complete(saver, parts, snap)):
-            return (f'{site}:marker-on-incomplete-save', f'after dump call {t}: {snap!r}')
+            # (a leftover file of any other name next to the marker counts: the directory is not the saved data set)
+            return (f'{site}:marker-on-incomplete-save', f'after dump call {t}: {snap!r}' + (f' names {names!r}' if t == len(hist) else ''))
     # 3. a failed save leaves no marker (unless the failing write is the marker write itself, torn after the
     #    file was created: an empty file cannot be half-written) and raises one of the injected faults
     if outcome is not None:
@@ -372,6 +373,8 @@ def generate(rng, tier):
 def extra_evidence():
     return {
         'fault_model': {
+            'exception_classes': ['own Exception subclass', 'OSError', 'StopIteration (direct, from a generator, natural next() on empty)',
+                                  'GeneratorExit (BaseException, not retried)'],
             'write_fault_modes': ['before (nothing happens)', 'after mkdir (io.open raises inside the real Local.dump)',
                                   'torn after j bytes (stream raises inside the real Local.dump)'],
             'crash_points': 'dump call k = 0..n (parts in job order, then marker), counted over retries; '
@@ -388,6 +391,10 @@ def extra_evidence():
             'Context.runJob releases the lock only on success: lock_release_link fails + oracle context-unusable-after-failed-save',
             'Local.exists uses os.path.isfile: correspondence + oracle existing-target-not-refused (directory targets)',
             'resultHandler=iter (write job never forced): correspondence + oracle marker-on-incomplete-save',
+            'seeded C09_m1 (exists via resolve_filenames): correspondence + oracle existing-target-not-refused',
+            'seeded C09_m2 (_runJob_local returns a map object): kernel TaskMap -> local_kind_link fails + oracle '
+            'marker-on-incomplete-save / compute-failure-swallowed on StopIteration compute faults',
+            'seeded C09_m3 (temp file left by a torn write): correspondence + oracle marker-on-incomplete-save',
         ],
     }
 
